@@ -1288,9 +1288,9 @@ def _h_variants(x, rng):
     unsigned = x.get("dtype") == "uint8"
     out.append({**x, "fill": rng.choice([5, 7] if unsigned else [-1, 7, 5])})
     out.append({**x, "all_touched": not x.get("all_touched")})
-    out.append({**x, "dtype": rng.choice([d for d in DTYPES if d != x.get("dtype") and not
-                                          (d == "uint8" and x.get("fill") is not None and frac(x["fill"]) < 0)
-                                          and (d in ("float32", "float64") or _integral(x))])})
+    other = [d for d in DTYPES if d != x.get("dtype") and _fits(x, d)]
+    if other:
+        out.append({**x, "dtype": rng.choice(other)})
     # a plain call after a call with options (options must not leak into module state)
     out.append({**x, "values": None, "fill": None, "dtype": None, "all_touched": None, "call_as": "kw"})
     # the same geometries on another template of the same shape / on the transposed template
@@ -1327,9 +1327,13 @@ def _shifted(g, dt, df):
     return {"type": ty, "coordinates": cc}
 
 
-def _integral(x):
+def _fits(x, dtype):
+    """the request's fill and values are representable in the dtype (the property's domain)"""
     nums = [x.get("fill")] + (x["values"] if isinstance(x.get("values"), list) else [x.get("values")])
-    return all(v is None or frac(v).denominator == 1 for v in nums)
+    nums = [frac(v) for v in nums if v is not None]
+    if dtype in ("float32", "float64"):
+        return True
+    return all(v.denominator == 1 for v in nums) and (dtype != "uint8" or all(v >= 0 for v in nums))
 
 
 OPS["raster_history"] = history.history_op("raster_history", OPS["rasterize_all"], _h_build, _h_call, _h_canon,
@@ -1370,7 +1374,7 @@ def _stage_histories(ctx):
     (assignment, in place, model_copy) and used again, results edited by the caller, results re-read after later calls"""
     rng = ctx.rng
     base = _history_base(ctx, ctx.budget(60, 600))
-    ctx.run_cases(OPS["raster_history"], _h_sequences(ctx, rng, base, ctx.budget(150, 1500)))
+    ctx.run_cases(OPS["raster_history"], _h_sequences(ctx, rng, base, ctx.budget(150, 1000)))
 
 
 def run(ctx):
@@ -1392,7 +1396,7 @@ def run(ctx):
     ctx.exhaustive["rasterize"] = "every template shape 1-8 x 1-8, both dimension orders"
     stage("lattice-sweep", _stage_lattice, ctx)
     stage("option-pairs", _stage_pairwise, ctx)
-    stage("rasterize-all-types", lambda: ctx.run_cases(OPS["rasterize_all"], _general_cases(ctx, ctx.budget(700, 12000))))
+    stage("rasterize-all-types", lambda: ctx.run_cases(OPS["rasterize_all"], _general_cases(ctx, ctx.budget(700, 9000))))
     stage("edge-offsets", _stage_edges, ctx)
     stage("size-thresholds", _stage_sizes, ctx)
     stage("histories", _stage_histories, ctx)
